@@ -533,7 +533,7 @@ def int_to_dec(t):
     return z3.If(t >= 0, z3.IntToStr(t), z3.Concat(mk_str('-'), z3.IntToStr(-t)))
 
 
-def fmt_percent(a, b):
+def fmt_percent(a, b, st=None):
     """Minimal %-formatting: a concrete format with %d / %s / %i of simple values."""
     if not a.concrete:
         raise Unsupported("symbolic format string")
@@ -542,10 +542,13 @@ def fmt_percent(a, b):
     import re
     parts = re.split(r'(%[dis%])', fmt)
     out = []
+    segs_out = [] if isinstance(a, VBytes) else None       # structural result for bytes formats
     ai = 0
     for p in parts:
         if p == '%%':
             out.append(mk_str('%'))
+            if segs_out is not None:
+                segs_out.append(('lit', b'%'))
         elif p in ('%d', '%i', '%s'):
             if ai >= len(args):
                 return [(True, exc(TypeError, "not enough arguments for format string"))]
@@ -556,11 +559,17 @@ def fmt_percent(a, b):
                     return [(True, exc(TypeError, "%d format: a real number is required"))]
                 t = int_to_dec(as_int_term(arg))
                 out.append(mk_str(t) if isinstance(t, str) else t)
+                if segs_out is not None:
+                    from .segs import dec_segment
+                    segs_out.append(dec_segment(as_int_term(arg), st))
             else:
                 if isinstance(a, VBytes):
-                    if not isinstance(arg, VBytes):
+                    from .segs import segs_of, VSegs, to_vbytes
+                    if not isinstance(arg, (VBytes, VSegs)):
                         return [(True, exc(TypeError, "%b requires a bytes-like object"))]
-                    out.append(arg.term())
+                    if segs_out is not None:
+                        segs_out += segs_of(arg)
+                    out.append(to_vbytes(arg).term())
                 elif isinstance(arg, VStr):
                     out.append(arg.term())
                 elif is_numeric(arg) and isinstance(arg, VInt):
@@ -572,10 +581,15 @@ def fmt_percent(a, b):
             raise Unsupported(f"format directive in {fmt!r}")
         elif p:
             out.append(mk_str(p))
+            if segs_out is not None:
+                segs_out.append(('lit', p.encode('latin-1')))
     if ai != len(args):
         return [(True, exc(TypeError, "not all arguments converted during string formatting"))]
     if not out:
         return [(True, mk_like(a, mk_str('')))]
+    if isinstance(a, VBytes) and segs_out is not None:
+        from .segs import from_segs
+        return [(True, from_segs(segs_out))]
     return [(True, mk_like(a, z3.Concat(*out) if len(out) > 1 else out[0]))]
 
 
